@@ -113,29 +113,46 @@ def run(ctx, rep):
                   "%s writes a global cell (%s) outside start-up" % (path, cal.split("::")[-1]))
 
     # ---------- R6.3 routing
-    dcb = VD + "dispatch_cdp_batch::{closure#0}"
-    if dcb in f.fns:
-        b = cg.body(dcb)
-        ids = {}
-        for i, j, s in b.stmts():
-            if s["k"] == "assign" and s["rv"]["k"] == "agg" and (s["rv"].get("adt") or "").endswith("DispatchId"):
-                ids[s["rv"]["vname"]] = show_origin(b.origin(s["rv"]["ops"][0]))
-        # exact provenance (a widening cast is the only operation allowed on the way)
-        ok = set(ids) == {"FeeId", "GbtLink"} and ids.get("FeeId") == "RDH_CRU::fee_id(&arg2.0)" and ids.get("GbtLink") in ("(RDH_CRU::link_id(&arg2.0) as u16)", "<u16 as core::convert::From<u8>>::from(RDH_CRU::link_id(&arg2.0))", "<T as core::convert::Into<U>>::into(RDH_CRU::link_id(&arg2.0))")
-        rep.check(ok, "R6.3", "R6.3|dispatch_id_source", "the dispatch id is the packet's own fee_id() / link_id()", dcb, "dispatch ids are built from %s" % ids)
-        calls = [(bb, t) for bb, t, cal, c in b.calls() if cal == VD + "dispatch_by_id"]
-        ok = len(calls) == 1
-        if ok:
-            t = calls[0][1]
-            a = [show_origin(b.origin(x)) for x in t["args"][1:4]]
-            ok = a == ["arg2.0", "arg2.1", "arg2.2"] and b.all_paths_pass(0, [calls[0][0]])
-        rep.check(ok, "R6.3", "R6.3|dispatch_passes_tuple", "every packet of the batch is dispatched once with its own (rdh, payload, offset)", dcb)
-        # the arm is chosen by self.dispatch_by
-        sw = [x for x in b.live_blocks() if b.blocks[x]["t"]["k"] == "switch"]
-        src = [show_origin(b.origin(b.blocks[x]["t"]["d"])) for x in sw]
-        rep.check(any("dispatch_by" in s_ for s_ in src), "R6.3", "R6.3|dispatch_by_selects", "the key kind is selected by the per-run constant dispatch_by", dcb, "switches on %s" % src)
+    # the per-packet step of dispatch_cdp_batch (the `for_each` closure or, written as a loop, the function itself) is
+    # evaluated for each kind of dispatch key with one packet (RDHV, DATA, POS) substituted: exactly one call of
+    # dispatch_by_id, with the packet's own parts unchanged and the key built from the packet's own fee_id() / link_id()
+    from ..thir import Evaluator as _Ev, Agg as _Agg, Sym as _Sym, vkey as _vkey, Unsupported as _Uns
+    ev = _Ev(f)
+    dfn = VD + "dispatch_cdp_batch"
+    cands = [q for q in [dfn + "::{closure#0}", dfn] if q in f.fns and ev.tb(q) is not None
+             and any((c.get("res") or c.get("fn") or "") == VD + "dispatch_by_id" for _, c in ev.tb(q).calls())]
+    DID = next((a_ for a_ in sorted(f.adts) if a_.endswith("validator_dispatcher::DispatchId")), None)
+    if cands and DID:
+        dcb = cands[0]
+        pkt = (_Sym("RDHV"), _Sym("DATA"), _Sym("POS"))
+        got = {}
+        for variant in ("FeeId", "GbtLink"):
+            slf = _Agg("ValidatorDispatcher", "ValidatorDispatcher", {"dispatch_by": _Agg(DID, variant, {"0": _Sym("K")})})
+            ev.by_name = {"self": slf}
+            ev.call_hooks = [(lambda fn_, r_: (r_ or fn_).endswith("Iterator>::next") or fn_.endswith("Iterator::next"), lambda n, a_: _Agg("core::option::Option", "Some", {"0": pkt})),
+                             (lambda fn_, r_: fn_.endswith("::fee_id"), lambda n, a_: _Sym("FEE_ID_OF:" + _vkey(a_[0]))),
+                             (lambda fn_, r_: fn_.endswith("::link_id"), lambda n, a_: _Sym("LINK_ID_OF:" + _vkey(a_[0])))]
+            ev.watch = lambda c: c == VD + "dispatch_by_id"
+            try:
+                out = ev.collect_ifs(dcb, [_Sym("ENV"), pkt] if "{closure" in dcb else [slf, _Sym("BATCH")])
+                got[variant] = [(tuple(o["args"][1:]), tuple(g for g in o["guard"] if g not in ("true", "not false"))) for o in out
+                                if "call" in o and not o.get("closure") and not any(g in ("false", "not true") for g in o["guard"])]
+            except _Uns as e:
+                got[variant] = [(("unevaluable: %s" % e,), ())]
+            finally:
+                ev.by_name = {}
+                ev.call_hooks = []
+                ev.watch = None
+        ids_ok = {"FeeId": ("DispatchId::FeeId(0=sym(FEE_ID_OF:sym(RDHV)))",),
+                  "GbtLink": ("DispatchId::GbtLink(0=sym(cast(sym(LINK_ID_OF:sym(RDHV)) as u16)))", "DispatchId::GbtLink(0=sym(LINK_ID_OF:sym(RDHV)))")}
+        ok_id = all(len(got[v_]) == 1 and got[v_][0][0][-1] in ids_ok[v_] for v_ in got)
+        rep.check(ok_id, "R6.3", "R6.3|dispatch_id_source", "the dispatch id is the packet's own fee_id() / link_id()", dcb, "dispatch ids are built as %s" % {v_: [x[0][-1:] for x in got[v_]] for v_ in got})
+        ok_t = all(len(got[v_]) == 1 and got[v_][0][0][:3] == ("sym(RDHV)", "sym(DATA)", "sym(POS)") and got[v_][0][1] == () for v_ in got)
+        rep.check(ok_t, "R6.3", "R6.3|dispatch_passes_tuple", "every packet of the batch is dispatched once with its own (rdh, payload, offset)", dcb, "dispatch_by_id calls per key kind: %s" % got)
+        rep.check(ok_id and {got[v_][0][0][-1].split("(")[0] for v_ in got} == {"DispatchId::FeeId", "DispatchId::GbtLink"}, "R6.3", "R6.3|dispatch_by_selects",
+                  "the key kind is selected by the per-run constant dispatch_by", dcb, "key kinds per value of dispatch_by: %s" % {v_: [x[0][-1].split("(")[0] for x in got[v_]] for v_ in got})
     else:
-        rep.missing("R6.3", dcb)
+        rep.missing("R6.3", dfn + " (per-packet step calling dispatch_by_id)")
     dbi = VD + "dispatch_by_id"
     if dbi in f.fns:
         # helper methods of the dispatcher are inlined: the rules speak about events (position lookup,
